@@ -12,8 +12,8 @@
         }
         /// the command's reply set
         open spec fn ctrl_known(c: u8, i: u8) -> bool { (c == 6 && i == 15) }
-        /// a packet of the reply set that its own packet type decodes is accepted
-        open spec fn parse_defined(b: Seq<u8>) -> bool { b.len() >= 2 && ((b[0] == 6 && b[1] == 15 && <crate::packets::CompletionData as zvt_builder::ZvtSerializer>::zd_defined(b))) }
+        /// a packet of the reply set (an APDU has at least its three header bytes) that its own packet type decodes is accepted
+        open spec fn parse_defined(b: Seq<u8>) -> bool { b.len() >= 3 && ((b[0] == 6 && b[1] == 15 && <crate::packets::CompletionData as zvt_builder::ZvtSerializer>::zd_defined(b))) }
         //@ fn exp:zvt | impl zvt_builder::ZvtParser for RegistrationResponse | zvt_parse | mod=sequences props=C15,C02
         //@ end
     }
@@ -33,8 +33,8 @@
         }
         /// the command's reply set
         open spec fn ctrl_known(c: u8, i: u8) -> bool { (c == 4 && i == 255) || (c == 4 && i == 15) || (c == 6 && i == 30) }
-        /// a packet of the reply set that its own packet type decodes is accepted
-        open spec fn parse_defined(b: Seq<u8>) -> bool { b.len() >= 2 && ((b[0] == 4 && b[1] == 255 && <crate::packets::IntermediateStatusInformation as zvt_builder::ZvtSerializer>::zd_defined(b)) || (b[0] == 4 && b[1] == 15 && <crate::packets::StatusInformation as zvt_builder::ZvtSerializer>::zd_defined(b)) || (b[0] == 6 && b[1] == 30 && <crate::packets::Abort as zvt_builder::ZvtSerializer>::zd_defined(b))) }
+        /// a packet of the reply set (an APDU has at least its three header bytes) that its own packet type decodes is accepted
+        open spec fn parse_defined(b: Seq<u8>) -> bool { b.len() >= 3 && ((b[0] == 4 && b[1] == 255 && <crate::packets::IntermediateStatusInformation as zvt_builder::ZvtSerializer>::zd_defined(b)) || (b[0] == 4 && b[1] == 15 && <crate::packets::StatusInformation as zvt_builder::ZvtSerializer>::zd_defined(b)) || (b[0] == 6 && b[1] == 30 && <crate::packets::Abort as zvt_builder::ZvtSerializer>::zd_defined(b))) }
         //@ fn exp:zvt | impl zvt_builder::ZvtParser for ReadCardResponse | zvt_parse | mod=sequences props=C15,C02
         //@ end
     }
@@ -56,8 +56,8 @@
         }
         /// the command's reply set
         open spec fn ctrl_known(c: u8, i: u8) -> bool { (c == 4 && i == 255) || (c == 6 && i == 209) || (c == 6 && i == 211) || (c == 6 && i == 15) || (c == 6 && i == 30) }
-        /// a packet of the reply set that its own packet type decodes is accepted
-        open spec fn parse_defined(b: Seq<u8>) -> bool { b.len() >= 2 && ((b[0] == 4 && b[1] == 255 && <crate::packets::IntermediateStatusInformation as zvt_builder::ZvtSerializer>::zd_defined(b)) || (b[0] == 6 && b[1] == 209 && <crate::packets::PrintLine as zvt_builder::ZvtSerializer>::zd_defined(b)) || (b[0] == 6 && b[1] == 211 && <crate::packets::PrintTextBlock as zvt_builder::ZvtSerializer>::zd_defined(b)) || (b[0] == 6 && b[1] == 15 && <crate::packets::CompletionData as zvt_builder::ZvtSerializer>::zd_defined(b)) || (b[0] == 6 && b[1] == 30 && <crate::packets::Abort as zvt_builder::ZvtSerializer>::zd_defined(b))) }
+        /// a packet of the reply set (an APDU has at least its three header bytes) that its own packet type decodes is accepted
+        open spec fn parse_defined(b: Seq<u8>) -> bool { b.len() >= 3 && ((b[0] == 4 && b[1] == 255 && <crate::packets::IntermediateStatusInformation as zvt_builder::ZvtSerializer>::zd_defined(b)) || (b[0] == 6 && b[1] == 209 && <crate::packets::PrintLine as zvt_builder::ZvtSerializer>::zd_defined(b)) || (b[0] == 6 && b[1] == 211 && <crate::packets::PrintTextBlock as zvt_builder::ZvtSerializer>::zd_defined(b)) || (b[0] == 6 && b[1] == 15 && <crate::packets::CompletionData as zvt_builder::ZvtSerializer>::zd_defined(b)) || (b[0] == 6 && b[1] == 30 && <crate::packets::Abort as zvt_builder::ZvtSerializer>::zd_defined(b))) }
         //@ fn exp:zvt | impl zvt_builder::ZvtParser for InitializationResponse | zvt_parse | mod=sequences props=C15,C02
         //@ end
     }
@@ -76,8 +76,8 @@
         }
         /// the command's reply set
         open spec fn ctrl_known(c: u8, i: u8) -> bool { (c == 6 && i == 15) || (c == 6 && i == 30) }
-        /// a packet of the reply set that its own packet type decodes is accepted
-        open spec fn parse_defined(b: Seq<u8>) -> bool { b.len() >= 2 && ((b[0] == 6 && b[1] == 15 && <crate::packets::CompletionData as zvt_builder::ZvtSerializer>::zd_defined(b)) || (b[0] == 6 && b[1] == 30 && <crate::packets::Abort as zvt_builder::ZvtSerializer>::zd_defined(b))) }
+        /// a packet of the reply set (an APDU has at least its three header bytes) that its own packet type decodes is accepted
+        open spec fn parse_defined(b: Seq<u8>) -> bool { b.len() >= 3 && ((b[0] == 6 && b[1] == 15 && <crate::packets::CompletionData as zvt_builder::ZvtSerializer>::zd_defined(b)) || (b[0] == 6 && b[1] == 30 && <crate::packets::Abort as zvt_builder::ZvtSerializer>::zd_defined(b))) }
         //@ fn exp:zvt | impl zvt_builder::ZvtParser for SetTerminalIdResponse | zvt_parse | mod=sequences props=C15,C02
         //@ end
     }
@@ -95,8 +95,8 @@
         }
         /// the command's reply set
         open spec fn ctrl_known(c: u8, i: u8) -> bool { (c == 6 && i == 15) }
-        /// a packet of the reply set that its own packet type decodes is accepted
-        open spec fn parse_defined(b: Seq<u8>) -> bool { b.len() >= 2 && ((b[0] == 6 && b[1] == 15 && <crate::packets::CompletionData as zvt_builder::ZvtSerializer>::zd_defined(b))) }
+        /// a packet of the reply set (an APDU has at least its three header bytes) that its own packet type decodes is accepted
+        open spec fn parse_defined(b: Seq<u8>) -> bool { b.len() >= 3 && ((b[0] == 6 && b[1] == 15 && <crate::packets::CompletionData as zvt_builder::ZvtSerializer>::zd_defined(b))) }
         //@ fn exp:zvt | impl zvt_builder::ZvtParser for ResetTerminalResponse | zvt_parse | mod=sequences props=C15,C02
         //@ end
     }
@@ -119,8 +119,8 @@
         }
         /// the command's reply set
         open spec fn ctrl_known(c: u8, i: u8) -> bool { (c == 4 && i == 255) || (c == 4 && i == 1) || (c == 6 && i == 209) || (c == 6 && i == 211) || (c == 6 && i == 15) || (c == 6 && i == 30) }
-        /// a packet of the reply set that its own packet type decodes is accepted
-        open spec fn parse_defined(b: Seq<u8>) -> bool { b.len() >= 2 && ((b[0] == 4 && b[1] == 255 && <crate::packets::IntermediateStatusInformation as zvt_builder::ZvtSerializer>::zd_defined(b)) || (b[0] == 4 && b[1] == 1 && <crate::packets::SetTimeAndDate as zvt_builder::ZvtSerializer>::zd_defined(b)) || (b[0] == 6 && b[1] == 209 && <crate::packets::PrintLine as zvt_builder::ZvtSerializer>::zd_defined(b)) || (b[0] == 6 && b[1] == 211 && <crate::packets::PrintTextBlock as zvt_builder::ZvtSerializer>::zd_defined(b)) || (b[0] == 6 && b[1] == 15 && <crate::packets::CompletionData as zvt_builder::ZvtSerializer>::zd_defined(b)) || (b[0] == 6 && b[1] == 30 && <crate::packets::Abort as zvt_builder::ZvtSerializer>::zd_defined(b))) }
+        /// a packet of the reply set (an APDU has at least its three header bytes) that its own packet type decodes is accepted
+        open spec fn parse_defined(b: Seq<u8>) -> bool { b.len() >= 3 && ((b[0] == 4 && b[1] == 255 && <crate::packets::IntermediateStatusInformation as zvt_builder::ZvtSerializer>::zd_defined(b)) || (b[0] == 4 && b[1] == 1 && <crate::packets::SetTimeAndDate as zvt_builder::ZvtSerializer>::zd_defined(b)) || (b[0] == 6 && b[1] == 209 && <crate::packets::PrintLine as zvt_builder::ZvtSerializer>::zd_defined(b)) || (b[0] == 6 && b[1] == 211 && <crate::packets::PrintTextBlock as zvt_builder::ZvtSerializer>::zd_defined(b)) || (b[0] == 6 && b[1] == 15 && <crate::packets::CompletionData as zvt_builder::ZvtSerializer>::zd_defined(b)) || (b[0] == 6 && b[1] == 30 && <crate::packets::Abort as zvt_builder::ZvtSerializer>::zd_defined(b))) }
         //@ fn exp:zvt | impl zvt_builder::ZvtParser for DiagnosisResponse | zvt_parse | mod=sequences props=C15,C02
         //@ end
     }
@@ -143,8 +143,8 @@
         }
         /// the command's reply set
         open spec fn ctrl_known(c: u8, i: u8) -> bool { (c == 4 && i == 255) || (c == 4 && i == 15) || (c == 6 && i == 209) || (c == 6 && i == 211) || (c == 6 && i == 15) || (c == 6 && i == 30) }
-        /// a packet of the reply set that its own packet type decodes is accepted
-        open spec fn parse_defined(b: Seq<u8>) -> bool { b.len() >= 2 && ((b[0] == 4 && b[1] == 255 && <crate::packets::IntermediateStatusInformation as zvt_builder::ZvtSerializer>::zd_defined(b)) || (b[0] == 4 && b[1] == 15 && <crate::packets::StatusInformation as zvt_builder::ZvtSerializer>::zd_defined(b)) || (b[0] == 6 && b[1] == 209 && <crate::packets::PrintLine as zvt_builder::ZvtSerializer>::zd_defined(b)) || (b[0] == 6 && b[1] == 211 && <crate::packets::PrintTextBlock as zvt_builder::ZvtSerializer>::zd_defined(b)) || (b[0] == 6 && b[1] == 15 && <crate::packets::CompletionData as zvt_builder::ZvtSerializer>::zd_defined(b)) || (b[0] == 6 && b[1] == 30 && <crate::packets::PartialReversalAbort as zvt_builder::ZvtSerializer>::zd_defined(b))) }
+        /// a packet of the reply set (an APDU has at least its three header bytes) that its own packet type decodes is accepted
+        open spec fn parse_defined(b: Seq<u8>) -> bool { b.len() >= 3 && ((b[0] == 4 && b[1] == 255 && <crate::packets::IntermediateStatusInformation as zvt_builder::ZvtSerializer>::zd_defined(b)) || (b[0] == 4 && b[1] == 15 && <crate::packets::StatusInformation as zvt_builder::ZvtSerializer>::zd_defined(b)) || (b[0] == 6 && b[1] == 209 && <crate::packets::PrintLine as zvt_builder::ZvtSerializer>::zd_defined(b)) || (b[0] == 6 && b[1] == 211 && <crate::packets::PrintTextBlock as zvt_builder::ZvtSerializer>::zd_defined(b)) || (b[0] == 6 && b[1] == 15 && <crate::packets::CompletionData as zvt_builder::ZvtSerializer>::zd_defined(b)) || (b[0] == 6 && b[1] == 30 && <crate::packets::PartialReversalAbort as zvt_builder::ZvtSerializer>::zd_defined(b))) }
         //@ fn exp:zvt | impl zvt_builder::ZvtParser for EndOfDayResponse | zvt_parse | mod=sequences props=C15,C02
         //@ end
     }
@@ -167,8 +167,8 @@
         }
         /// the command's reply set
         open spec fn ctrl_known(c: u8, i: u8) -> bool { (c == 4 && i == 255) || (c == 4 && i == 15) || (c == 6 && i == 209) || (c == 6 && i == 211) || (c == 6 && i == 15) || (c == 6 && i == 30) }
-        /// a packet of the reply set that its own packet type decodes is accepted
-        open spec fn parse_defined(b: Seq<u8>) -> bool { b.len() >= 2 && ((b[0] == 4 && b[1] == 255 && <crate::packets::IntermediateStatusInformation as zvt_builder::ZvtSerializer>::zd_defined(b)) || (b[0] == 4 && b[1] == 15 && <crate::packets::StatusInformation as zvt_builder::ZvtSerializer>::zd_defined(b)) || (b[0] == 6 && b[1] == 209 && <crate::packets::PrintLine as zvt_builder::ZvtSerializer>::zd_defined(b)) || (b[0] == 6 && b[1] == 211 && <crate::packets::PrintTextBlock as zvt_builder::ZvtSerializer>::zd_defined(b)) || (b[0] == 6 && b[1] == 15 && <crate::packets::CompletionData as zvt_builder::ZvtSerializer>::zd_defined(b)) || (b[0] == 6 && b[1] == 30 && <crate::packets::Abort as zvt_builder::ZvtSerializer>::zd_defined(b))) }
+        /// a packet of the reply set (an APDU has at least its three header bytes) that its own packet type decodes is accepted
+        open spec fn parse_defined(b: Seq<u8>) -> bool { b.len() >= 3 && ((b[0] == 4 && b[1] == 255 && <crate::packets::IntermediateStatusInformation as zvt_builder::ZvtSerializer>::zd_defined(b)) || (b[0] == 4 && b[1] == 15 && <crate::packets::StatusInformation as zvt_builder::ZvtSerializer>::zd_defined(b)) || (b[0] == 6 && b[1] == 209 && <crate::packets::PrintLine as zvt_builder::ZvtSerializer>::zd_defined(b)) || (b[0] == 6 && b[1] == 211 && <crate::packets::PrintTextBlock as zvt_builder::ZvtSerializer>::zd_defined(b)) || (b[0] == 6 && b[1] == 15 && <crate::packets::CompletionData as zvt_builder::ZvtSerializer>::zd_defined(b)) || (b[0] == 6 && b[1] == 30 && <crate::packets::Abort as zvt_builder::ZvtSerializer>::zd_defined(b))) }
         //@ fn exp:zvt | impl zvt_builder::ZvtParser for AuthorizationResponse | zvt_parse | mod=sequences props=C15,C02
         //@ end
     }
@@ -191,8 +191,8 @@
         }
         /// the command's reply set
         open spec fn ctrl_known(c: u8, i: u8) -> bool { (c == 4 && i == 255) || (c == 4 && i == 15) || (c == 6 && i == 209) || (c == 6 && i == 211) || (c == 6 && i == 15) || (c == 6 && i == 30) }
-        /// a packet of the reply set that its own packet type decodes is accepted
-        open spec fn parse_defined(b: Seq<u8>) -> bool { b.len() >= 2 && ((b[0] == 4 && b[1] == 255 && <crate::packets::IntermediateStatusInformation as zvt_builder::ZvtSerializer>::zd_defined(b)) || (b[0] == 4 && b[1] == 15 && <crate::packets::StatusInformation as zvt_builder::ZvtSerializer>::zd_defined(b)) || (b[0] == 6 && b[1] == 209 && <crate::packets::PrintLine as zvt_builder::ZvtSerializer>::zd_defined(b)) || (b[0] == 6 && b[1] == 211 && <crate::packets::PrintTextBlock as zvt_builder::ZvtSerializer>::zd_defined(b)) || (b[0] == 6 && b[1] == 15 && <crate::packets::CompletionData as zvt_builder::ZvtSerializer>::zd_defined(b)) || (b[0] == 6 && b[1] == 30 && <crate::packets::PartialReversalAbort as zvt_builder::ZvtSerializer>::zd_defined(b))) }
+        /// a packet of the reply set (an APDU has at least its three header bytes) that its own packet type decodes is accepted
+        open spec fn parse_defined(b: Seq<u8>) -> bool { b.len() >= 3 && ((b[0] == 4 && b[1] == 255 && <crate::packets::IntermediateStatusInformation as zvt_builder::ZvtSerializer>::zd_defined(b)) || (b[0] == 4 && b[1] == 15 && <crate::packets::StatusInformation as zvt_builder::ZvtSerializer>::zd_defined(b)) || (b[0] == 6 && b[1] == 209 && <crate::packets::PrintLine as zvt_builder::ZvtSerializer>::zd_defined(b)) || (b[0] == 6 && b[1] == 211 && <crate::packets::PrintTextBlock as zvt_builder::ZvtSerializer>::zd_defined(b)) || (b[0] == 6 && b[1] == 15 && <crate::packets::CompletionData as zvt_builder::ZvtSerializer>::zd_defined(b)) || (b[0] == 6 && b[1] == 30 && <crate::packets::PartialReversalAbort as zvt_builder::ZvtSerializer>::zd_defined(b))) }
         //@ fn exp:zvt | impl zvt_builder::ZvtParser for PartialReversalResponse | zvt_parse | mod=sequences props=C15,C02
         //@ end
     }
@@ -212,8 +212,8 @@
         }
         /// the command's reply set
         open spec fn ctrl_known(c: u8, i: u8) -> bool { (c == 6 && i == 209) || (c == 6 && i == 211) || (c == 6 && i == 15) }
-        /// a packet of the reply set that its own packet type decodes is accepted
-        open spec fn parse_defined(b: Seq<u8>) -> bool { b.len() >= 2 && ((b[0] == 6 && b[1] == 209 && <crate::packets::PrintLine as zvt_builder::ZvtSerializer>::zd_defined(b)) || (b[0] == 6 && b[1] == 211 && <crate::packets::PrintTextBlock as zvt_builder::ZvtSerializer>::zd_defined(b)) || (b[0] == 6 && b[1] == 15 && <crate::packets::CompletionData as zvt_builder::ZvtSerializer>::zd_defined(b))) }
+        /// a packet of the reply set (an APDU has at least its three header bytes) that its own packet type decodes is accepted
+        open spec fn parse_defined(b: Seq<u8>) -> bool { b.len() >= 3 && ((b[0] == 6 && b[1] == 209 && <crate::packets::PrintLine as zvt_builder::ZvtSerializer>::zd_defined(b)) || (b[0] == 6 && b[1] == 211 && <crate::packets::PrintTextBlock as zvt_builder::ZvtSerializer>::zd_defined(b)) || (b[0] == 6 && b[1] == 15 && <crate::packets::CompletionData as zvt_builder::ZvtSerializer>::zd_defined(b))) }
         //@ fn exp:zvt | impl zvt_builder::ZvtParser for PrintSystemConfigurationResponse | zvt_parse | mod=sequences props=C15,C02
         //@ end
     }
@@ -231,8 +231,8 @@
         }
         /// the command's reply set
         open spec fn ctrl_known(c: u8, i: u8) -> bool { (c == 6 && i == 15) }
-        /// a packet of the reply set that its own packet type decodes is accepted
-        open spec fn parse_defined(b: Seq<u8>) -> bool { b.len() >= 2 && ((b[0] == 6 && b[1] == 15 && <crate::packets::CompletionData as zvt_builder::ZvtSerializer>::zd_defined(b))) }
+        /// a packet of the reply set (an APDU has at least its three header bytes) that its own packet type decodes is accepted
+        open spec fn parse_defined(b: Seq<u8>) -> bool { b.len() >= 3 && ((b[0] == 6 && b[1] == 15 && <crate::packets::CompletionData as zvt_builder::ZvtSerializer>::zd_defined(b))) }
         //@ fn exp:zvt | impl zvt_builder::ZvtParser for SelectLanguageResponse | zvt_parse | mod=sequences props=C15,C02
         //@ end
     }
@@ -253,8 +253,8 @@
         }
         /// the command's reply set
         open spec fn ctrl_known(c: u8, i: u8) -> bool { (c == 4 && i == 255) || (c == 6 && i == 209) || (c == 6 && i == 211) || (c == 6 && i == 15) }
-        /// a packet of the reply set that its own packet type decodes is accepted
-        open spec fn parse_defined(b: Seq<u8>) -> bool { b.len() >= 2 && ((b[0] == 4 && b[1] == 255 && <crate::packets::IntermediateStatusInformation as zvt_builder::ZvtSerializer>::zd_defined(b)) || (b[0] == 6 && b[1] == 209 && <crate::packets::PrintLine as zvt_builder::ZvtSerializer>::zd_defined(b)) || (b[0] == 6 && b[1] == 211 && <crate::packets::PrintTextBlock as zvt_builder::ZvtSerializer>::zd_defined(b)) || (b[0] == 6 && b[1] == 15 && <crate::packets::CompletionData as zvt_builder::ZvtSerializer>::zd_defined(b))) }
+        /// a packet of the reply set (an APDU has at least its three header bytes) that its own packet type decodes is accepted
+        open spec fn parse_defined(b: Seq<u8>) -> bool { b.len() >= 3 && ((b[0] == 4 && b[1] == 255 && <crate::packets::IntermediateStatusInformation as zvt_builder::ZvtSerializer>::zd_defined(b)) || (b[0] == 6 && b[1] == 209 && <crate::packets::PrintLine as zvt_builder::ZvtSerializer>::zd_defined(b)) || (b[0] == 6 && b[1] == 211 && <crate::packets::PrintTextBlock as zvt_builder::ZvtSerializer>::zd_defined(b)) || (b[0] == 6 && b[1] == 15 && <crate::packets::CompletionData as zvt_builder::ZvtSerializer>::zd_defined(b))) }
         //@ fn exp:zvt | impl zvt_builder::ZvtParser for StatusEnquiryResponse | zvt_parse | mod=sequences props=C15,C02
         //@ end
     }
